@@ -390,6 +390,12 @@ func (c19) Run(e *simkit.Env, cc any) {
 	if c.Mailbox > 0 && nItems > c.Mailbox {
 		e.Probe("worker-mailbox-full-skipped")
 	}
+	if c.Mailbox == 0 && unhandled > 0 {
+		// "unhandled" is the pool's word for "every worker's mailbox was full": with unbounded worker
+		// mailboxes there is always room, and a dead worker found at dispatch is to be replaced
+		e.Fail("C19/dropped-with-room", "the pool gave up on %d item(s) (messages_unhandled) although the worker mailboxes are unbounded (size %d, %d workers crashed or removed)", unhandled, c.Size, crashed)
+		return
+	}
 	if crashed == 0 {
 		if missing != unhandled {
 			e.Fail("C19/lost-without-crash", "no worker crashed, %d normal-priority items were never handled but the pool counted %d as unhandled (size %d, worker mailbox %d)", missing, unhandled, c.Size, c.Mailbox)
